@@ -1,3 +1,5 @@
 //! csverif: property-based verification harness for cardinalsin.
 pub mod core;
 pub mod props;
+pub mod util;
+pub mod sim;
